@@ -12,7 +12,7 @@ func init() {
 	register(&propertyDef{
 		id:    "C06",
 		title: "cancelling a run stops it in bounded time and reaches every running plugin",
-		rules: []ruleFunc{c06R1, c06R2, c06R3, c06R4, c06R5, c06R6, c06R7, c06R8, c06R9},
+		rules: []ruleFunc{c06R1, c06R2, c06R3, c06R4, c06R5, c06R6, c06R7, c06R8, c06R9, c06R10},
 		decided: "every blocking channel operation of the run path has a context/timer case or is non-blocking by construction (R1); on every explored path through the running stage's context-done case the cancel signal is sent or the step is force-closed, and the wait that follows ends by the result or by the timer case followed by a forced close (R2); " +
 			"closers cancel before they wait (R3 = C05.R4); Execute's context-done branch starts the terminate-all goroutine and its second wait has a case on a context.WithTimeout with a constant duration (R4); the command-line interrupt handler cancels the run context after the first signal (R5); deployments and sub-runs get the step context (R6 = C05.R7). Shared: a deployed plugin is closed on every path of the step goroutine, cancellation paths included (R7 = C05.R2); the cancel-signal channel cannot be sent to after close (R8 = C12.R7); lock order and callback discipline hold on the closing paths too (R9 = C01.R3).",
 		notDecided: "the numeric bound; that a plugin honours the cancel signal; that the result returned after cancellation had its dependencies genuinely produced (C03).",
